@@ -154,6 +154,12 @@ func (r *ParseRequestResponse) injectFile(upload *Upload, paths []string) error 
 			}
 			idx = idxVal
 			parts = parts[1:]
+			if len(parts) == 0 {
+				return fmt.Errorf("invalid number of parts in path: %s", path)
+			}
+			if idx < 0 || idx >= len(r.Requests) {
+				return fmt.Errorf("request index %d out of bound %d", idx, len(r.Requests))
+			}
 		}
 
 		if parts[0] != "variables" {
@@ -193,7 +199,7 @@ func (r *ParseRequestResponse) injectFile(upload *Upload, paths []string) error 
 				}
 
 				// index might not be within the bounds
-				if index >= len(v) {
+				if index < 0 || index >= len(v) {
 					return fmt.Errorf("file index %d out of bound %d", index, len(v))
 				}
 				fileVal := v[index]
